@@ -147,8 +147,15 @@ def c02_succeeded_justified(v):
             OR(EQ(v["ev"], st.SUCCEEDED), AND(IN(v["ev"], st.ABENDED_STATUSES), HANDLED(v)))))
 
 
+STARTS = [st.REQUESTED, st.SCHEDULED, st.DELAYED, st.RUNNING, st.RESUMING]
+
+
 def c02_paused_canceled_dormant(v):
-    return IMPLIES(AND(IN(v["new"], [st.PAUSED, st.CANCELED]), NE(v["new"], v["old"])), NOT(v["A"]))
+    """paused / canceled are only entered with nothing in flight; and a paused workflow in which a task
+    starts (it was offered beside a task that then went pending, or it is resumed by the provider),
+    however the start is acknowledged, does not go on reporting paused"""
+    return AND(IMPLIES(AND(IN(v["new"], [st.PAUSED, st.CANCELED]), NE(v["new"], v["old"])), NOT(v["A"])),
+               IMPLIES(AND(EQ(v["old"], st.PAUSED), IN(v["ev"], STARTS), NOT(v["raised"])), NE(v["new"], st.PAUSED)))
 
 
 def c02_ing_active(v):
@@ -216,10 +223,11 @@ def c09_paused_exactly_when_last_reports(v):
 
 def c09_no_progress_while_pausing(v):
     """while pausing/paused a task event never moves the workflow back to a running status,
-    except a task that itself (re)starts while the workflow is paused (documented rows)"""
+    except a task that itself (re)starts - acknowledged as requested, scheduled, delayed, running or
+    resuming - while the workflow is paused: then an action is in flight and paused would be untrue"""
     return AND(
         IMPLIES(EQ(v["old"], st.PAUSING), NOTIN(v["new"], [st.RUNNING, st.RESUMING, st.SUCCEEDED])),
-        IMPLIES(AND(EQ(v["old"], st.PAUSED), NOTIN(v["ev"], [st.RUNNING, st.RESUMING])),
+        IMPLIES(AND(EQ(v["old"], st.PAUSED), NOTIN(v["ev"], STARTS)),
                 NOTIN(v["new"], [st.RUNNING, st.RESUMING, st.SUCCEEDED])))
 
 
@@ -253,7 +261,7 @@ PTE_OBLIGATIONS = {
     "C02.pte.succeeded_justified": (["C02"], c02_succeeded_justified,
         "status becomes succeeded only if nothing is active/staged/next/unreachable, no paused or canceled task, and the reporting task succeeded or its failure was handled"),
     "C02.pte.paused_canceled_dormant": (["C02", "C09", "C10"], c02_paused_canceled_dormant,
-        "status becomes paused/canceled only with no active task"),
+        "status becomes paused/canceled only with no active task; a paused workflow in which a task starts (acknowledged as requested, scheduled, delayed, running or resuming) no longer reports paused"),
     "C02.pte.ing_active": (["C02", "C09", "C10"], c02_ing_active,
         "after a task event, pausing/canceling implies an active task"),
     "C02.pte.unhandled_failure_fails": (["C02", "C09"], c02_unhandled_failure_fails,
